@@ -13,16 +13,21 @@ Modes == {"node", "propOnly", "none"}
 Files == {"root", "add1", "add2"}
 Ranges == << <<0, 0, 0, 0>>, <<1, 9, 10, 99>>, <<100, 123456, 0, 1>>, <<9, 10, 9, 11>>, <<99, 100, 100, 0>>,
              <<123456, 1, 123456, 99>>, <<10, 0, 99, 9>>, <<1, 1, 1, 1>>, <<0, 123456, 1, 0>>, <<12, 34, 56, 78>>,
-             <<100, 10, 1, 0>>, <<7, 77, 777, 7777>> >>
+             <<100, 10, 1, 0>>, <<7, 77, 777, 7777>>,
+             \* magnitudes beyond 2^31, 2^53 and 2^63 (digit strings: TLC's integers are 32 bit; Location only copies them)
+             <<"4294967296", "9007199254740993", "9223372036854775807", "9223372036854775808">>,
+             <<"12345678901234567890", 0, "18446744073709551616", 1>> >>
 Rot(r, k) == [i \in 1..4 |-> r[((i + k - 1) % 4) + 1]]
 
-Scenarios == [modes : [NodeSet -> Modes], files : [NodeSet -> Files], base : 1..Len(Ranges), hasMaps : BOOLEAN]
+\* hasSource = FALSE: lexical entries but no BaseUnitSourceInformation node (no file is named for any node)
+Scenarios == [modes : [NodeSet -> Modes], files : [NodeSet -> Files], base : 1..Len(Ranges), hasMaps : BOOLEAN, hasSource : BOOLEAN]
 Idx(n) == CHOOSE i \in 1..4 : Nodes[i] = n
 ModeCode(m) == CASE m = "node" -> 1 [] m = "propOnly" -> 2 [] m = "none" -> 3
 FileCode(f) == CASE f = "root" -> 1 [] f = "add1" -> 2 [] f = "add2" -> 3
 Hash(s) == (s.base + 13 * ModeCode(s.modes["t1"]) + 17 * ModeCode(s.modes["t2"]) + 19 * ModeCode(s.modes["k1"])
             + 23 * ModeCode(s.modes["k2"]) + 29 * FileCode(s.files["t1"]) + 31 * FileCode(s.files["t2"])
-            + 37 * FileCode(s.files["k1"]) + 41 * FileCode(s.files["k2"]) + (IF s.hasMaps THEN 43 ELSE 0)) % NParts
+            + 37 * FileCode(s.files["k1"]) + 41 * FileCode(s.files["k2"]) + (IF s.hasMaps THEN 43 ELSE 0)
+            + (IF s.hasSource THEN 0 ELSE 47)) % NParts
 
 LexOf(s) == [n \in NodeSet |-> [mode |-> IF s.hasMaps THEN s.modes[n] ELSE "none", range |-> Rot(Ranges[s.base], Idx(n))]]
 SrcOf(s) == [root |-> "file:///root.raml",
@@ -30,7 +35,9 @@ SrcOf(s) == [root |-> "file:///root.raml",
                                {n \in NodeSet : s.files[n] = (IF f = "file:///add1.raml" THEN "add1" ELSE "add2")}]]
 
 VARIABLE s
-Init == s \in {x \in Scenarios : Hash(x) = Part /\ (~x.hasMaps => x.base = 1 /\ \A n \in NodeSet : x.modes[n] = "none" /\ x.files[n] = "root")}
+Init == s \in {x \in Scenarios : /\ Hash(x) = Part
+                                  /\ (~x.hasMaps => x.base = 1 /\ x.hasSource /\ \A n \in NodeSet : x.modes[n] = "none" /\ x.files[n] = "root")
+                                  /\ (~x.hasSource => \A n \in NodeSet : x.files[n] = "root")}
 Next == UNCHANGED s
 
 Facts == /\ WellFormedSource(SrcOf(s))
@@ -38,7 +45,7 @@ Facts == /\ WellFormedSource(SrcOf(s))
                                   {"file:///root.raml", "file:///add1.raml", "file:///add2.raml"}
          /\ ~s.hasMaps => \A n \in NodeSet : ~HasLocation(n, LexOf(s))
 
-Emit == PrintT("CASE " \o ToJson([lex |-> LexOf(s), src |-> SrcOf(s), hasMaps |-> s.hasMaps,
+Emit == PrintT("CASE " \o ToJson([lex |-> LexOf(s), src |-> SrcOf(s), hasMaps |-> s.hasMaps, hasSource |-> s.hasSource,
                                   expect |-> [n \in NodeSet |-> IF HasLocation(n, LexOf(s))
                                                                   THEN Location(n, LexOf(s), SrcOf(s))
                                                                   ELSE [uri |-> "none"]]]))
